@@ -84,7 +84,48 @@ def class_sequence(model, mod, e: ast.AST, depth: int = 0):
         if isinstance(d, ast.Dict):
             out = [model.resolve_class(mod, x) for x in d.values]
             return out if out and all(c is not None for c in out) else None
+    # concatenation and repetition: tuple(map.values()) + (NOP,) * (16 - len(map))   (the count folds to a constant)
+    if isinstance(e, ast.BinOp) and isinstance(e.op, ast.Add):
+        a, b = class_sequence(model, mod, e.left, depth + 1), class_sequence(model, mod, e.right, depth + 1)
+        return a + b if a is not None and b is not None else None
+    if isinstance(e, ast.BinOp) and isinstance(e.op, ast.Mult):
+        for seq_e, n_e in ((e.left, e.right), (e.right, e.left)):
+            seq = class_sequence(model, mod, seq_e, depth + 1)
+            if seq is None:
+                continue
+            n = _fold_count(model, mod, n_e)
+            if isinstance(n, int) and 0 <= n <= 64:
+                return seq * n
+        return None
     return None
+
+
+def _fold_count(model, mod, e: ast.AST):
+    """An integer expression over constants, named constants and len(<module dict / class sequence>)."""
+    if isinstance(e, ast.Constant) and isinstance(e.value, int) and not isinstance(e.value, bool):
+        return e.value
+    if isinstance(e, ast.Call) and isinstance(e.func, ast.Name) and e.func.id == "len" and len(e.args) == 1:
+        a = e.args[0]
+        d = mod.assigns.get(a.id) if isinstance(a, ast.Name) else a
+        if isinstance(d, ast.Dict):
+            return len(d.keys)
+        seq = class_sequence(model, mod, a)
+        return len(seq) if seq is not None else None
+    if isinstance(e, ast.BinOp) and isinstance(e.op, (ast.Add, ast.Sub, ast.Mult, ast.LShift, ast.FloorDiv)):
+        l, r = _fold_count(model, mod, e.left), _fold_count(model, mod, e.right)
+        if isinstance(l, int) and isinstance(r, int):
+            try:
+                return {ast.Add: l + r, ast.Sub: l - r, ast.Mult: l * r, ast.LShift: l << r if 0 <= r < 32 else None,
+                        ast.FloorDiv: l // r if r else None}[type(e.op)]
+            except Exception:
+                return None
+        return None
+    try:
+        from .consteval import Folder
+        v = Folder(model, mod, None, None).fold(e)
+        return v if isinstance(v, int) and not isinstance(v, bool) else None
+    except Exception:
+        return None
 
 
 @dataclass
